@@ -36,21 +36,23 @@ def run(ctx):
     ctx.preload(cfgs)
     for cfg in cfgs:
         fs = ctx.facts(cfg)
-        name_first(ctx, cfg, fs)
-        matched(ctx, cfg, fs)
-        keep_only(ctx, lambda: c07.table(ctx, cfg, fs), lambda o: 'depth=Less' in o.key or 'depth=Greater' in o.key, 'D.depth')
-        keep_only(ctx, lambda: c10.final(ctx, cfg, fs), lambda o: True, 'F.final')
-        keep_only(ctx, lambda: c10.returns(ctx, cfg, fs), lambda o: o.rule == 'P.payload', 'L.own-level')
-        keep_only(ctx, lambda: c05.scope_restore(ctx, cfg, fs), lambda o: 'ParseCommand' in o.key, 'R.scope-restore')
-        keep_only(ctx, lambda: c10.usage_fallback(ctx, cfg, ctx.look(fs.one(r'^info::OptionParser::<T>::run_subparser$')), 'U.usage-fallback'), lambda o: True, 'U.usage-fallback')
+        ctx.guard(name_first, ctx, cfg, fs)
+        ctx.guard(matched, ctx, cfg, fs)
+        ctx.guard(keep_only, ctx, lambda: c07.table(ctx, cfg, fs), lambda o: 'depth=Less' in o.key or 'depth=Greater' in o.key, 'D.depth')
+        ctx.guard(keep_only, ctx, lambda: c10.final(ctx, cfg, fs), lambda o: True, 'F.final')
+        ctx.guard(keep_only, ctx, lambda: c10.returns(ctx, cfg, fs), lambda o: o.rule == 'P.payload', 'L.own-level')
+        ctx.guard(keep_only, ctx, lambda: c05.scope_restore(ctx, cfg, fs), lambda o: 'ParseCommand' in o.key, 'R.scope-restore')
+        ctx.guard(keep_only, ctx, lambda: c10.usage_fallback(ctx, cfg, ctx.look(fs.one(r'^info::OptionParser::<T>::run_subparser$')), 'U.usage-fallback'), lambda o: True, 'U.usage-fallback')
 
 def keep_only(ctx, fn, pred, rule):
     before = len(ctx.obs)
-    fn()
-    keep = [o for o in ctx.obs[before:] if pred(o)]
-    for o in keep:
-        o.rule = rule
-    ctx.obs = ctx.obs[:before] + keep
+    try:
+        fn()
+    finally:
+        keep = [o for o in ctx.obs[before:] if pred(o)]
+        for o in keep:
+            o.rule = rule
+        ctx.obs = ctx.obs[:before] + keep
 
 def name_first(ctx, cfg, fs):
     before = len(ctx.obs)
